@@ -86,6 +86,18 @@ class C10(CurveCheck):
                            "onetime:zero-view-scalar"))
             cs.append(Case("sendrecv %s %s %s %d" % (hx(le(0)), hx(le(rng.randrange(L))), hx(ed.compress(rand_point(rng))), i), "sendrecv:zero-tx-secret"))
             cs.append(Case("sendrecv %s %s %s %d" % (hx(le(rng.randrange(L))), hx(le(0)), hx(ed.compress(rand_point(rng))), i), "sendrecv:zero-view-secret"))
+        # consecutive calls that share all arguments but one (a derivation remembered under the transaction key alone, or under
+        # the scalar alone, shows here)
+        for _ in range(8 if q else 60):
+            a1, a2 = rng.randrange(1, L), rng.randrange(1, L)
+            B1, B2 = ed.compress(rand_point(rng)), ed.compress(rand_point(rng))
+            S1, S2 = ed.compress(rand_point(rng)), ed.compress(rand_point(rng))
+            for (a, B) in ((a1, B1), (a2, B1), (a1, B1), (a1, B2), (a1, B1)):
+                cs.append(Case("derive %s %s" % (hx(le(a)), hx(B)), "derive:shared-args"))
+            i = rng.choice([0, 1, 300])
+            for (S, a, B, j) in ((S1, a1, B1, i), (S1, a2, B1, i), (S1, a1, B1, i), (S2, a1, B1, i), (S1, a1, B1, i), (S1, a1, B2, i),
+                                 (S1, a1, B1, i), (S1, a1, B1, i + 1), (S1, a1, B1, i)):
+                cs.append(Case("onetime %s %s %s %d" % (hx(S), hx(le(a)), hx(B), j), "onetime:shared-args"))
         for _ in range(60 if q else 500):
             r, v = rng.choice([1, L - 1, rng.randrange(L), rng.randrange(L)]), rng.choice([1, rng.randrange(L)])
             S = rand_point(rng, T if rng.random() < 0.3 else None)
